@@ -66,10 +66,15 @@ class Ref:
         self.steps = 0
 
     def lookup(self, scopes, name):
+        # user rules: lexical scope - the body is read in the grammar that defines the name (and its enclosing ones)
         for i, sc in enumerate(scopes):
             for n, p in sc:
                 if n == name:
                     return scopes[i:], p
+        # default-peg-grammar entries: observed - read in the scope of the reference
+        for n, p in DEFAULT_GRAMMAR:
+            if n == name:
+                return scopes, p
         raise Unsupported("unknown rule " + name)
 
     def m(self, p, pos, end, acc, tags, scopes, depth):
@@ -226,7 +231,7 @@ CORE = {'str', 'int', 'bool', 'range', 'set', 'ref', 'grammar', 'seq', 'choice',
 
 def match_at(p, text, start, args):
     ref = Ref(text, list(args))
-    r = ref.m(p, start, len(text), False, [], [DEFAULT_GRAMMAR], 0)
+    r = ref.m(p, start, len(text), False, [], [], 0)
     if r is None:
         return None
     return r[0], r[1].caps
